@@ -179,7 +179,14 @@ class Unit:
             if s.startswith('//@ EXTRACT-RAW'):
                 kv = parse_kv(s[len('//@ EXTRACT-RAW'):])
                 src = self.src(kv)
-                self.emit(raw_item_text(src, kv['item'], self.manifest), 'repo:%s:%s' % (src.display, kv['item']))
+                rtxt = raw_item_text(src, kv['item'], self.manifest)
+                if kv.get('static_lifetime'):
+                    # D5: in the type of a const/static item an elided reference lifetime IS 'static; it is written
+                    # out because verus! turns the const into a function, where elision is not allowed
+                    head, eq, tail = rtxt.partition('=')
+                    rtxt = re.sub(r"&\s*(?!')", "&'static ", head) + eq + tail
+                    self.manifest.append({'op': 'normalise(D5)', 'item': kv['item'], 'what': "elided lifetime in the const's type written as 'static"})
+                self.emit(rtxt, 'repo:%s:%s' % (src.display, kv['item']))
                 i += 1
                 continue
             if s.startswith('//@ EXTRACT-TYPE'):
